@@ -26,7 +26,7 @@ RULE = (
     'the mapped list (also after serialise+reparse), applying the inverse replacer gives back the original '
     'serialisation, the identity replacer leaves the serialisation unchanged, ignoreImportRules leaves imports alone, '
     'and the declaration-level dispatch only touches its declaration. flatten: import trees over a dict-backed virtual '
-    'file system (1-6 files in 7 directories on two hosts, depth up to 4, diamonds, import hrefs written relative / '
+    'file system (2-6 files in 8 directories (server root included) on two hosts, depth up to 4, diamonds, import hrefs written relative / '
     'dot-relative / root-relative / scheme-relative / absolute, in string or url() form, media none / all / print / a '
     'list / a query with expression, missing targets, rule kinds style / @media / @font-face / @page / @namespace / '
     'comment, URL forms relative / parent / dot / query / fragment / percent-escaped / space / root / scheme-relative / '
@@ -229,7 +229,7 @@ def _funcs(m):
 # =========================================================================== flatten
 
 HOST = 'http://h.example'
-DIRS = ['/css/site/', '/css/site/a/', '/css/site/a/b/', '/css/site/c/', '/css/', '/css/up/', '//other.example/lib/']
+DIRS = ['/css/site/', '/css/site/a/', '/css/site/a/b/', '/css/site/c/', '/css/', '/css/up/', '/', '//other.example/lib/']
 MEDIA = ['', 'all', 'print', 'screen, tv', 'screen and (min-width: 100px)']
 MEDIA_CANON = {'': 'all', 'all': 'all', 'print': 'print', 'screen, tv': 'screen, tv',
                'screen and (min-width: 100px)': 'screen and (min-width: 100px)'}
@@ -241,7 +241,7 @@ KINDS = ['style', 'style', 'style', 'media', 'fontface', 'page', 'namespace', 'c
 @st.composite
 def tree(draw, local=False):
     n = draw(st.integers(2, 6))
-    ndirs = len(DIRS) - 1 if local else len(DIRS)
+    ndirs = len(DIRS) - 2 if local else len(DIRS)
     files = []
     for i in range(n):
         d = 0 if i == 0 else draw(st.integers(0, ndirs - 1))
